@@ -365,7 +365,7 @@ class CorrelatedExactGPyTorchModel(GPyTorchMultioutputExactModel):
         with torch.no_grad(), torch.autograd.set_detect_anomaly(True):
             res = self.model(test_X)
 
-            means = res.mean.squeeze().numpy(force=True)  # Squeeze the sample dimension
+            means = res.mean.squeeze(-2).numpy(force=True)  # Squeeze the sample dimension
             variances = res.covariance_matrix
             variances = variances.numpy(force=True)
 
@@ -402,7 +402,7 @@ class IndependentExactGPyTorchModel(GPyTorchMultioutputExactModel):
         with torch.no_grad(), torch.autograd.set_detect_anomaly(True):
             res = self.model(test_X)
 
-            means = res.mean.squeeze().numpy(force=True)  # Squeeze the sample dimension
+            means = res.mean.numpy(force=True)
             variances = torch.einsum("ij,ki->kij", torch.eye(self.output_dim), res.variance).numpy(
                 force=True
             )
